@@ -17,5 +17,5 @@ Extraction "model.ml" conv_anchor
   LevelSwapC.level_swap_c LevelSwapC.set_var_order_model_c
   BuildCanon.build_kind BuildCanon.lvl_fun BuildCanon.canonical_count BuildCanon.cfun_of BuildCanon.bool_kind_ok_b BuildCanon.canon_size_bdd
   Terminals.lift_st Terminals.collect_term_survivors Terminals.collect_node_survivors Terminals.tstep Terminals.tcollect
-  Terminals.minv_b Terminals.tgc_count Terminals.get_outcome Terminals.tlen
+  Terminals.minv_b Terminals.tcollect_count Terminals.tgc_count Terminals.get_outcome Terminals.tlen
   Table.mkSnap Table.mkNode Table.mkEdge Table.nlevels Table.edge_eqb.
